@@ -122,14 +122,15 @@ Theorem C20_run_ignored_no_flag : forall dur n fs ts,
 Proof. exact run_ignored_no_flag. Qed.
 Print Assumptions C20_run_ignored_no_flag.
 
-(* the executable oracle used on the implementation's stream accepts every stream the model writes *)
-Theorem C20_run_meets_spec : forall s, valid s = true -> spec s (run s) = true.
+(* the executable oracle accepts every stream the model writes -- for the scenarios without stages, plugins, exceptions and
+   constructor kinds (the sublanguage of C20_Model.v; C20_run_meets_spec below is the statement for the whole scenario language) *)
+Theorem C20_run_meets_spec_core : forall s, valid s = true -> spec s (run s) = true.
 Proof. exact run_meets_spec. Qed.
-Print Assumptions C20_run_meets_spec.
+Print Assumptions C20_run_meets_spec_core.
 
-Theorem C20_run_meets_spec_with_text : forall s trailer, valid s = true -> no_hash trailer = true -> spec s (add_text (run s) trailer) = true.
+Theorem C20_run_meets_spec_core_with_text : forall s trailer, valid s = true -> no_hash trailer = true -> spec s (add_text (run s) trailer) = true.
 Proof. exact run_meets_spec_text. Qed.
-Print Assumptions C20_run_meets_spec_with_text.
+Print Assumptions C20_run_meets_spec_core_with_text.
 
 (* spec = the stream parses (read strictly; a very verbose stream message-anywhere), the messages are balanced and, with the observed
    body executions, faithful to the scenario *)
@@ -279,6 +280,128 @@ Theorem C20_very_verbose_example :
   /\ Nat.ltb (length (o_stream (run example_run))) (length (o_stream (run example_vv))) = true.
 Proof. exact example_vv_valid. Qed.
 Print Assumptions C20_very_verbose_example.
+
+(* --------------------------------------------------------------------------------------------------------------
+   Failures that are not produced by the check macros (C20_ModelX.v, C20_FailProofs.v): the failure object with its constructors, the
+   stages of a test, plugins, exceptions, separate processes; `xrun` / `xspec` / `xvalid` are what bin/check runs
+   -------------------------------------------------------------------------------------------------------------- *)
+From CppUVerif Require Import C20_ModelX C20_FailProofs.
+
+(* what each way of making a failure object leaves in it, whatever the two-argument constructor stores as the bare name (sn), and
+   however often the object is copied *)
+Theorem C20_failure_object_fields : forall sn k n t file line msg,
+  let f := make sn k n t file line msg in
+  f_testName f = formatted_name t /\ f_nameOnly f = (if is_short k then sn t else t_name t) /\ f_tfile f = t_file t /\ f_tline f = t_line t
+  /\ f_file f = eff_file k t file /\ f_line f = eff_line k t line /\ f_msg f = eff_msg k msg.
+Proof. exact make_fields. Qed.
+Print Assumptions C20_failure_object_fields.
+
+(* the code's objects name the test by its bare name and carry the test's own location -- every constructor kind (2-, 3-, 4-argument,
+   derived classes on the short ones), any number of copies *)
+Theorem C20_failure_object_names_test : forall k n t file line msg,
+  let f := make t_name k n t file line msg in
+  f_nameOnly f = t_name t /\ f_tfile f = t_file t /\ f_tline f = t_line t.
+Proof. exact make_names_test. Qed.
+Print Assumptions C20_failure_object_names_test.
+
+(* printFailure prints what it reads of the object; the name attribute decodes to the object's bare name *)
+Theorem C20_printFailure_reads_object : forall ps uf dur st f,
+  tc_step ps uf dur st (ev_of_failure f) = (st, [IMsg (print_failure ps f)]) /\ get_attr L_name (fmsg f) = Some (f_nameOnly f)
+  /\ pmsg_ok (print_failure Esc f) = true.
+Proof. intros. split; [apply step_failure | split; [apply fmsg_name | apply print_failure_ok]]. Qed.
+Print Assumptions C20_printFailure_reads_object.
+
+(* so a failure made for test t by ANY constructor is printed exactly as a check macro's failure of t at the effective place with the
+   effective text (the writer theorems of C20_Proofs.v / C20_MsgTie.v about failure_pmsg apply to it) *)
+Theorem C20_made_failure_printed_as_macro_failure : forall ps k n t file line msg,
+  print_failure ps (make t_name k n t file line msg) = failure_pmsg ps t (eff_file k t file) (eff_line k t line) (eff_msg k msg).
+Proof. exact print_made_failure. Qed.
+Print Assumptions C20_made_failure_printed_as_macro_failure.
+
+(* one test, as the registry armed it: the failure objects the model of the runner produces (plugin pre-actions, setup, body unless setup
+   was left early, teardown, plugin post-actions, MockSupportPlugin unless the test has failed, the leak plugin unless anything was
+   reported; or the parent's report about a child process) meet, one by one and in order, what the property demands of the test: the
+   bare name, the test's place, the failure's place, the text (the scenario's own exactly; a text the library composes carries the
+   what() / the call names); and the body is entered as often as demanded *)
+Theorem C20_test_failures_model : forall cfg xt,
+  Forall2 (meets xt) (xtest_failures cfg xt) (fst (test_want cfg xt))
+  /\ (if x_ignored xt then 0 else snd (test_want cfg xt)) = xtest_exec t_name cfg xt.
+Proof. exact failures_meet. Qed.
+Print Assumptions C20_test_failures_model.
+
+(* every message between testStarted and testFinished of a test -- the ignored flag, every testFailed whatever made the failure --
+   carries the test's bare name *)
+Theorem C20_test_bracket_names : forall dur cfg xt, Forall (fun m => attr_is L_name m (x_name xt) = true) (xtest_msgs dur cfg xt).
+Proof. exact test_bracket_names. Qed.
+Print Assumptions C20_test_bracket_names.
+
+(* the stream of any such run (any sink, any verbosity, any plugins), followed by any summary text, parses back to the messages of the
+   run; they are balanced; read against the scenario they are faithful *)
+Theorem C20_failures_run_parses_back : forall s trailer, no_hash trailer = true ->
+  parse_for (xs_verb s) (o_stream (xrun s) ++ trailer) = Some (xmessages_of s).
+Proof. exact xrun_parse_text. Qed.
+Print Assumptions C20_failures_run_parses_back.
+
+Theorem C20_failures_balanced : forall dur cfg ri fs n xts, balanced (xpasses_msgs dur cfg ri fs n xts) = true.
+Proof. exact xbalanced. Qed.
+Print Assumptions C20_failures_balanced.
+
+Theorem C20_failures_faithful : forall dur cfg ri fs n xts,
+  xtake_passes cfg ri fs n xts (xpasses_exec t_name cfg ri fs n xts) (xpasses_msgs dur cfg ri fs n xts) = true.
+Proof. exact xtake_passes_msgs. Qed.
+Print Assumptions C20_failures_faithful.
+
+(* the executable oracle accepts every observation the model produces -- every scenario of the extended language (the validity
+   hypothesis only says that the harness can hand the scenario to the real code; it is not needed) *)
+Theorem C20_run_meets_spec : forall s, xvalid s = true -> xspec s (xrun s) = true.
+Proof. intros s _. apply xrun_meets_spec. Qed.
+Print Assumptions C20_run_meets_spec.
+
+Theorem C20_run_meets_spec_with_text : forall s trailer, xvalid s = true -> no_hash trailer = true -> xspec s (add_text (xrun s) trailer) = true.
+Proof. intros s trailer _. apply xrun_meets_spec_text. Qed.
+Print Assumptions C20_run_meets_spec_with_text.
+
+Theorem C20_failures_any_chunking_accepted : forall s ops, written ops = concat (xrun_pieces s) ->
+  {| o_stream := written ops; o_exec := o_exec (xrun s) |} = xrun s /\ xspec s {| o_stream := written ops; o_exec := o_exec (xrun s) |} = true.
+Proof. intros s ops E. split; [apply xrun_of_chunks | apply xspec_any_chunking]; exact E. Qed.
+Print Assumptions C20_failures_any_chunking_accepted.
+
+(* red-team change C20-1 of round 5: the two-argument constructor stores the formatted name.  Refuted by one test whose body throws
+   (its stream parses; the testFailed message names TEST(G, t) while the open test is t); on a run whose failures all come from the
+   long constructors the changed code is indistinguishable *)
+Theorem C20_formatted_short_name_refuted : ~ (forall s, xvalid s = true -> xspec s (xrun_formatted s) = true).
+Proof. exact xrun_formatted_refuted. Qed.
+Print Assumptions C20_formatted_short_name_refuted.
+
+Theorem C20_formatted_short_name_example :
+  match tc_parse (o_stream (xrun_formatted throwing_run)) with
+  | Some ms => balanced ms = false /\ existsb (fun m => is_msg L_testFailed m && attr_is L_name m name_TEST_G_t) ms = true
+  | None => False
+  end
+  /\ xrun_formatted macro_only_run = xrun macro_only_run /\ xspec macro_only_run (xrun macro_only_run) = true.
+Proof. split; [exact xrun_formatted_unbalanced | exact xrun_formatted_same_on_macros]. Qed.
+Print Assumptions C20_formatted_short_name_example.
+
+(* the hypotheses are satisfiable; a run with every kind of failure; the same run very verbose, with -ri, twice, on file descriptor 1 *)
+Theorem C20_failures_example :
+  xvalid example_x = true /\ xspec example_x (xrun example_x) = true /\ o_exec (xrun example_x) = [0; 1; 1; 1; 1; 0; 0; 0; 0]
+  /\ length (filter (is_msg L_testFailed) (xmessages_of example_x)) = 10%nat /\ xrun_marks example_x = [1; 4; 5; 6; 8; 9]
+  /\ xspec example_x (xrun_formatted example_x) = false
+  /\ xvalid example_x_vv = true /\ xspec example_x_vv (xrun example_x_vv) = true /\ tc_parse (o_stream (xrun example_x_vv)) = None
+  /\ length (filter (is_msg L_testFailed) (xmessages_of example_x_vv)) = 22%nat.
+Proof. exact example_x_valid. Qed.
+Print Assumptions C20_failures_example.
+
+(* the scenarios of C20_Model.v are the extended ones without stages and plugins: embedded, the examples above give the same observation
+   (also very verbose) and the refuted variants are refused by the extended oracle too *)
+Theorem C20_core_examples_embed :
+  xrun (embed example_run) = run example_run /\ xrun (embed example_vv) = run example_vv /\ xrun (embed example_ri) = run example_ri
+  /\ xrun (embed example_no_ri) = run example_no_ri /\ xrun (embed long_name_witness) = run long_name_witness
+  /\ xspec (embed example_ri) late_options_obs = false /\ xspec (embed example_ri) (run example_no_ri) = false
+  /\ xspec (embed old_path_witness) (run_old_path old_path_witness) = false /\ xspec (embed old_group_witness) (run_old_group old_group_witness) = false
+  /\ xspec (embed long_name_witness) (run_linebuf true 255 long_name_witness) = false /\ xvalid (embed example_run) = true.
+Proof. exact embed_examples. Qed.
+Print Assumptions C20_core_examples_embed.
 
 (* --------------------------------------------------------------------------------------------------------------
    printEscaped as tools/cxx2gal.py regenerates it from TeamCityTestOutput.cpp on every run (gen/Gen_LoopC20.v; the text handed to printBuffer is the ghost output): it emits exactly the model's tc_escape of the C string at its argument, touches no existing block (the result memory is the old one followed by the scratch arrays), stays inside its buffers and terminates within a fuel just above the string length
